@@ -197,6 +197,13 @@ func (c *CachedCheckResolver) ResolveCheck(
 		return resp, nil
 	}
 
+	// a sub-problem that was abandoned because its context was cancelled (a sibling branch already
+	// decided the parent, or the caller went away) may answer "not allowed" only because its reads
+	// were cut short. The caller discards such an answer; it must not be served to later requests.
+	if ctx.Err() != nil {
+		return resp, nil
+	}
+
 	clonedResp := resp.clone()
 
 	c.cache.Set(cacheKey, &CheckResponseCacheEntry{LastModified: time.Now(), CheckResponse: clonedResp}, storage.JitteredTTL(c.cacheTTL, c.jitterPercentage))
